@@ -114,6 +114,8 @@ class Interp:
             base = self.ev(node.value) if not isinstance(node.value, ast.Name) or U(node.value) in self.env else None
             if isinstance(base, dict) and node.attr in base:
                 return base[node.attr]
+            if node.attr == "__name__" and isinstance(base, str) and U(node.value).endswith("__class__"):
+                return base  # object models store their class by name
             if isinstance(base, dict) and node.attr in base.get("__props__", ()):
                 return base["__props__"][node.attr](base)  # a property of the modelled object, computed at access time
             if isinstance(base, Unknown):
